@@ -144,6 +144,10 @@ def corpus(tier):
     out.append(("delay", [fixed("a", 3), fixed("b", 1), worker("w"), req("a", "w", delay_in=1, early_out=1), req("b", "w")], 4))
     out.append(("delay-optional", [fixed("a", 3, optional=True), fixed("b", 1), worker("w"), req("a", "w", delay_in=2), req("b", "w")], 4))
     out.append(("delay-optional2", [fixed("b", 1), fixed("a", 3, optional=True), worker("w"), req("a", "w", delay_in=3, early_out=0), req("b", "w")], 4))
+    # unscheduled optional tasks whose requirement is shifted or dynamic: nothing of them may show up on the worker
+    out.append(("delay-optional-var", [var("a", min_duration=1, max_duration=3, optional=True), fixed("b", 1), worker("w"), req("a", "w", delay_in=2), req("b", "w")], 4))
+    out.append(("dynamic-optional-var", [var("a", max_duration=2, optional=True), fixed("b", 1), worker("w"), req("a", "w", dynamic=True), req("b", "w")], 3))
+    out.append(("dynamic-optional", [fixed("a", 2, optional=True), fixed("b", 1), worker("w"), req("a", "w", dynamic=True), req("b", "w")], 3))
     out.append(("delay2", [var("a", min_duration=2, max_duration=3), worker("w"), req("a", "w", early_out=1)], 4))
     out.append(("dynamic", [fixed("a", 2), fixed("b", 1), worker("w"), worker("v"), req("a", "v"), req("a", "w", dynamic=True), req("b", "w")], 3))
     out.append(("cumul3", [fixed("a", 2), fixed("b", 2), fixed("c", 1), cumul("k", 2), req("a", "k"), req("b", "k"), req("c", "k")], 3))
